@@ -1,6 +1,7 @@
 package adapter
 
 import (
+	"slices"
 	"time"
 
 	"github.com/karagenc/socket.io-go/internal/sync"
@@ -76,10 +77,12 @@ func (a *sessionAwareAdapter) cleaner() {
 			}
 		}
 
+		// Packets are kept in emission order: find the newest expired
+		// packet and drop it together with everything before it.
 		for i := len(a.packets) - 1; i >= 0; i-- {
 			packet := a.packets[i]
 			if packet.HasExpired(a.maxDisconnectDuration) {
-				a.packets = append(a.packets[:i], a.packets[i+1:]...)
+				a.packets = slices.Delete(a.packets, 0, i+1)
 				break
 			}
 		}
